@@ -231,17 +231,47 @@ fn main() {
         let msg = i.payload().downcast_ref::<&str>().map(|s| s.to_string()).or(i.payload().downcast_ref::<String>().cloned()).unwrap_or_default();
         LAST_PANIC.with(|p| *p.borrow_mut() = format!("{} {}", loc, msg.replace(char::is_whitespace, "_")));
     }));
+    // Every case runs in a worker thread; this thread waits for the answer with a limit (VERIF_HANG_SECS, default 60 s). A case that does not
+    // answer is reported as  "<line> => PANIC hang:no_answer_within_<n>_s"  (non-termination is a failure of the "terminates without panicking"
+    // clauses), the stuck worker is abandoned and a fresh one takes over; after 4 such cases the run stops (the runner reports the cases not executed).
+    let hang_secs: u64 = std::env::var("VERIF_HANG_SECS").ok().and_then(|v| v.parse().ok()).unwrap_or(60);
+    fn spawn_worker() -> (std::sync::mpsc::Sender<String>, std::sync::mpsc::Receiver<String>) {
+        let (tx_line, rx_line) = std::sync::mpsc::channel::<String>();
+        let (tx_res, rx_res) = std::sync::mpsc::channel::<String>();
+        std::thread::Builder::new().stack_size(64 << 20).spawn(move || {
+            for line in rx_line {
+                let t: Vec<&str> = line.split_whitespace().collect();
+                let r = std::panic::catch_unwind(|| run_case(&t));
+                let ans = match r {
+                    Ok((s, f)) => format!("{} => {} {:x}", line, s, f),
+                    Err(_) => { let p = LAST_PANIC.with(|p| p.borrow().clone()); format!("{} => PANIC {}", line, p) }
+                };
+                if tx_res.send(ans).is_err() { break; }
+            }
+        }).unwrap();
+        (tx_line, rx_res)
+    }
     let stdin = std::io::stdin();
     let out = std::io::stdout();
     let mut out = std::io::BufWriter::new(out.lock());
+    let (mut tx, mut rx) = spawn_worker();
+    let mut hangs = 0;
     for line in stdin.lock().lines() {
         let line = line.unwrap();
-        let t: Vec<&str> = line.split_whitespace().collect();
-        if t.is_empty() || t[0].starts_with('#') { continue; }
-        let r = std::panic::catch_unwind(|| run_case(&t));
-        match r {
-            Ok((s, f)) => writeln!(out, "{} => {} {:x}", line, s, f).unwrap(),
-            Err(_) => { let p = LAST_PANIC.with(|p| p.borrow().clone()); writeln!(out, "{} => PANIC {}", line, p).unwrap() }
+        { let t: Vec<&str> = line.split_whitespace().collect(); if t.is_empty() || t[0].starts_with('#') { continue; } }
+        tx.send(line.clone()).unwrap();
+        match rx.recv_timeout(std::time::Duration::from_secs(hang_secs)) {
+            Ok(ans) => writeln!(out, "{}", ans).unwrap(),
+            Err(std::sync::mpsc::RecvTimeoutError::Timeout) => {
+                writeln!(out, "{} => PANIC hang:no_answer_within_{}_s", line, hang_secs).unwrap();
+                out.flush().unwrap();
+                hangs += 1;
+                if hangs >= 4 { break; }
+                let w = spawn_worker(); tx = w.0; rx = w.1;
+            }
+            Err(_) => { writeln!(out, "{} => PANIC worker_thread_died", line).unwrap(); let w = spawn_worker(); tx = w.0; rx = w.1; }
         }
     }
+    out.flush().unwrap();
+    if hangs > 0 { std::process::exit(0); }   // do not wait for abandoned workers
 }
